@@ -309,8 +309,33 @@ def rule_drop_gated(ctx):
         b = fn.expr_of_operand(s["rv"]["ops"][1])
         if a[0] == "const" and a[1] == 0 and b[0] == "arg" and b[1] == 2:
             ok_range = True
-    if ok_range:
-        ctx.ok(site(fn, 0), "entries 0..len visited")
+    # ... and the entry loop is left only when the range is exhausted: a bucket can have never-filled slots anywhere
+    # (a panicking fill callback, an iterator that yields fewer items than it announced), so stopping at the first
+    # inactive entry leaks every active entry behind it
+    early = []
+    for h_, body_, nxt_ in for_loops(fn):
+        if not any(bi in body_ for bi, t in drops):
+            continue
+        if nxt_ is None:
+            continue
+        for a_, b_ in fn.loop_exits((h_, body_, None)):
+            if (a_ == nxt_[1] and b_ == nxt_[2]) or is_diverging(fn, b_):
+                continue
+            # exits of an inner loop (the per-column loop) that stay inside an outer loop are not exits of the entry loop
+            if any(b_ in ob for oh, ob, on in for_loops(fn) if ob is not body_ and body_ <= ob):
+                continue
+            early.append((a_, b_))
+    if early and ok_range:
+        # only the outermost drop loop matters
+        outer = [x for x in early]
+        if outer:
+            ctx.violation("boxcar::Bucket::<T>::dealloc|loop-exit|1", site(fn, outer[0][0]),
+                          "Bucket::dealloc leaves the entry loop before index `len`: entries behind a never-activated slot (panicking fill callback, short iterator) are never dropped — their items and columns leak")
+            ok_range = None
+    if ok_range is None:
+        pass
+    elif ok_range:
+        ctx.ok(site(fn, 0), "entries 0..len visited, loop left only by exhaustion")
     else:
         ctx.violation("boxcar::Bucket::<T>::dealloc|range|1", site(fn, 0), "dealloc does not visit entries 0..len of the bucket")
     _dealloc_layout_pair(ctx, fn)
